@@ -290,6 +290,12 @@ def plan(tier, seed):
                ('RotatedToric3DCode', (4, 6, 1)),
                ('Toric2DCode', (2, 7)), ('Toric2DCode', (6, 3)),
                ('Color488Code', (1, 3)), ('Color488Code', (3, 1)),
+               # strips hundreds of qubits long: the listed logicals weigh
+               # 256 and more
+               ('RotatedPlanar2DCode', (2, 256)),
+               ('RotatedPlanar2DCode', (2, 257)),
+               ('RotatedPlanar2DCode', (3, 257)),
+               ('Planar2DCode', (2, 260)), ('Toric2DCode', (2, 300)),
                ('Color666PlanarCode', (3, 1)), ('Color666PlanarCode', (2, 5)),
                ('Color666PlanarCode', (4, 1)),
                ('RhombicToricCode', (4, 2, 2)),
